@@ -261,6 +261,19 @@ def table_twins(task):
     return (nev, fails, len(pairs_seen))
 
 
+def safe_twins(task):
+    """A crash inside the experiment is a finding about the implementation, not a broken check."""
+    try:
+        return table_twins(task)
+    except Exception as ex:
+        import traceback
+
+        sidx, hist = task[0], task[1]
+        return 1, [{"signature": f"site=table-twins; class=experiment; symptom=raises:{type(ex).__name__}",
+                    "replay": {"replay_module": "mc.checks.c10", "object": "table", "seed": TM.seed_list[sidx], "history": [list(o) for o in hist],
+                               "oracle": "raises", "expected": "no exception", "actual": traceback.format_exc()[-600:]}}], 0
+
+
 def _apply_row(row, op):
     name = op[0]
     if name == "set_value":
@@ -304,7 +317,7 @@ def run(prop, tier, vseed):
     nev = 0
     npairs = 0
     with mp.get_context("fork").Pool(nproc) as pool:
-        for a, fails, pairs in pool.imap(table_twins, tasks, chunksize=2):
+        for a, fails, pairs in pool.imap(safe_twins, tasks, chunksize=2):
             nev += a
             failures.extend(fails)
             if len(failures) > 20000:
